@@ -125,6 +125,12 @@ impl<'a> PrettyPrinter<'a> {
             .filter(|child| child.kind() != SyntaxKind::Space)
             .last()
             .is_some_and(ends_with_linebreak);
+        // An empty term needs the blank as well: `/: d` is no term item.
+        let term_is_empty = !item
+            .children()
+            .take_while(|child| child.kind() != SyntaxKind::Colon)
+            .any(|child| child.kind() == SyntaxKind::Markup && child.children().len() > 0);
+        let term_ends_with_linebreak = term_ends_with_linebreak || term_is_empty;
         self.convert_flow_like(ctx, item, |ctx, child| match child.kind() {
             SyntaxKind::ListMarker | SyntaxKind::EnumMarker | SyntaxKind::TermMarker => {
                 FlowItem::spaced(self.arena.text(child.text().as_str()))
